@@ -58,3 +58,45 @@ CONTRACTS.append(Contract(
     ensures=[('membership', 'result == (name in self._data)'),
              ('store-unchanged', 'same_except(self._data, old(self._data))')],
     raises={}))
+
+# ---- ProviderDispatcher: the status codes of the documented situations, decided BEFORE the provider is called
+PD = 'pywbem_mock/_providerdispatcher.py::ProviderDispatcher.'
+S = 'pywbem_mock/_inmemoryrepository.py::'
+CLASS_SPECS = {'CIMInstanceName': {'namespace': Opt(Str), 'classname': Str, 'host': Opt(Str)},
+               'CIMInstance': {'classname': Str, 'path': Opt(Ref('CIMInstanceName'))}}
+CSTORE = Obj('InMemoryObjectStore', _data=MapOf('str', ('ref', 'CIMClass')))
+ISTORE = Obj('InMemoryObjectStore', _data=MapOf('absval', ('ref', 'CIMInstance')))
+validate_ns_c = Contract('pywbem_mock/_baseprovider.py::BaseProvider.validate_namespace', trusted=True,
+                         raises={'CIMError': Raises(post=[('code', 'exc.status_code == CIM_ERR_INVALID_NAMESPACE')])},
+                         notes='the namespace exists or CIM_ERR_INVALID_NAMESPACE (a dictionary lookup in the repository)')
+get_cstore_c = Contract(S + 'InMemoryRepository.get_class_store', returns_ghost='g_cstore', trusted=True)
+get_istore_c = Contract(S + 'InMemoryRepository.get_instance_store', returns_ghost='g_istore', trusted=True)
+exists_c = Contract(S + 'InMemoryObjectStore.object_exists', returns=Bool,
+                    ensures=[('membership', 'result == (name in self._data)')], notes='proved above')
+registered_c = Contract('pywbem_mock/_providerregistry.py::ProviderRegistry.get_registered_provider',
+                        returns=Opt(Ref('InstanceWriteProvider')), trusted=True)
+prov_delete_c = Contract('pywbem_mock/_instancewriteprovider.py::InstanceWriteProvider.DeleteInstance',
+                         raises={'CIMError': Raises()}, trusted=True,
+                         notes='the (default or registered) provider; its own contract is C11/bounded')
+DISPATCHER = Obj('ProviderDispatcher', cimrepository=Obj('InMemoryRepository'), provider_registry=Ref('ProviderRegistry'),
+                 default_instance_write_provider=Ref('InstanceWriteProvider'))
+CLS_OK = 'InstanceName.classname in g_cstore._data'
+INST_OK = 'InstanceName in g_istore._data'
+CONTRACTS.append(Contract(
+    PD + 'DeleteInstance',
+    params={'self': DISPATCHER, 'InstanceName': Ref('CIMInstanceName')},
+    ghosts={'g_cstore': CSTORE, 'g_istore': ISTORE},
+    callees={'validate_namespace': validate_ns_c, 'get_class_store': get_cstore_c, 'get_instance_store': get_istore_c,
+             'InMemoryObjectStore.object_exists': exists_c, 'get_registered_provider': registered_c,
+             'DeleteInstance': prov_delete_c},
+    ensures=[('the-provider-is-reached-only-for-an-existing-instance-of-an-existing-class',
+              f'old({CLS_OK}) and old({INST_OK})')],
+    raises={'CIMError': Raises(post=[
+        ('status-code-of-the-documented-situation',
+         f'exc.status_code == CIM_ERR_INVALID_NAMESPACE or '
+         f'(exc.status_code == CIM_ERR_INVALID_CLASS and not old({CLS_OK})) or '
+         f'(exc.status_code == CIM_ERR_NOT_FOUND and old({CLS_OK}) and not old({INST_OK})) or '
+         f'(old({CLS_OK}) and old({INST_OK}))'),
+        ('missing-class-is-INVALID_CLASS-not-NOT_FOUND',
+         f'implies(exc.status_code == CIM_ERR_NOT_FOUND and not old({INST_OK}), old({CLS_OK}))')])},
+))
